@@ -1190,7 +1190,8 @@ Record c13rt := mk_c13rt {
   rt_first : icase;                 (* writes the value to account metadata and to transaction metadata *)
   rt_json_text : string;            (* the transaction metadata value as serialised to JSON, decoded *)
   rt_second : option icase;         (* reads it back through a metadata-backed variable of the same type *)
-  rt_plain : option icase }.        (* reads the same text as a plain variable *)
+  rt_plain : option icase;          (* reads the same text as a plain variable *)
+  rt_given : option string }.       (* when the value written is just a variable given in canonical form: that very text *)
 
 Definition prop_C13_roundtrip (c : c13rt) : bool :=
   match ic_obs (rt_first c) with
@@ -1198,6 +1199,7 @@ Definition prop_C13_roundtrip (c : c13rt) : bool :=
       match alookup "k" txm, acc_meta_get am "acct" "k" with
       | Some v, Some text =>
           String.eqb text (rt_json_text c)
+          && match rt_given c with Some t => String.eqb text t | None => true end
           && (match rt_second c with
               | Some s => match txmeta_value (ic_obs s) "back" with Some v' => value_eqb v v' | None => false end
               | None => false end)
